@@ -117,41 +117,38 @@ func cmdSet(m *Model, d *DB, conn int, a [][]byte, now time.Time) Reply {
 		}
 	}
 	skip := (nx && exists) || (xx && !exists)
-	var res Reply
-	if get {
-		if exists {
-			res = bulk(old.S)
-		} else {
-			res = nilReply()
+	ref := func() Reply {
+		if get {
+			var res Reply
+			if exists {
+				res = bulk(old.S)
+			} else {
+				res = nilReply()
+			}
+			if !skip {
+				apply()
+			}
+			return res
 		}
-		if !skip {
-			apply()
+		if skip {
+			return nilReply()
 		}
-		return res
-	}
-	if skip {
-		return nilReply()
+		apply()
+		return status("OK")
 	}
 	if exists && old.T != TString && m.Opt.AcceptSetWrongType {
-		// the property text says WRONGTYPE and "changes nothing"; the command
-		// reference says SET overwrites any type.  Both are accepted; the state
-		// follows whichever was observed.
-		return Reply{Desc: "OK (overwrite) | WRONGTYPE (unchanged)", Check: func(got rd.Value) (bool, string) {
+		// the property text says a command applied to a key of another type
+		// fails with WRONGTYPE and changes nothing; the command reference says
+		// SET ignores the old type.  Both are accepted; the state follows
+		// whichever was observed.
+		return Reply{Desc: "reference SET behaviour | WRONGTYPE (unchanged)", Check: func(got rd.Value) (bool, string) {
 			if got.Kind == rd.Error {
-				if ok, why := wrongType().Check(got); !ok {
-					return false, why
-				}
-				return true, ""
+				return wrongType().Check(got)
 			}
-			if strLikeEq(got, []byte("OK")) {
-				apply()
-				return true, ""
-			}
-			return false, "expected OK or WRONGTYPE, got " + describe(got)
+			return ref().Check(got)
 		}}
 	}
-	apply()
-	return status("OK")
+	return ref()
 }
 
 func cmdGet(m *Model, d *DB, conn int, a [][]byte, now time.Time) Reply {
